@@ -188,6 +188,17 @@ def judge(case, o, m):
     for a, mc, oi in zip(A["lines"], M["main"], main_src):
         ob = case["objs"][oi]
         if ob["t"] == "dataset":
+            if ob.get("range"):
+                # independent of the model and of every generated table: the property's own
+                # `low <= x < high`, evaluated in Python on the input
+                lo_, hi_ = ob["range"]
+                inside = [x for x in ob["xs"] if lo_ <= x < hi_]
+                if len(a["xs"]) != len(inside) or any(
+                        not _near(p_, q_) for p_, q_ in zip(a["xs"], inside)):
+                    fail("dataset:xrange", "object {}: the points drawn are not the points with "
+                         "{!r} <= x < {!r}".format(oi, lo_, hi_), indep=True, impl=a["xs"],
+                         expected=inside, clause="low <= x < high")
+                    return fails, False
             if not cmp_points("dataset", a, mc, oi):
                 return fails, False
             stats["points_compared"] += len(a["xs"])
@@ -344,6 +355,15 @@ def judge(case, o, m):
     labs = {"x": A["xlabel"], "y": A["ylabel"], "title": A["title"]}
     if R is not None:
         labs["resx"], labs["resy"] = R["xlabel"], R["ylabel"]
+    for ax_ in ("x", "y"):
+        # independent of the model: an overridden unit must appear as `[unit]` after the name
+        n_, u_ = case["over"].get(ax_ + "name"), case["over"].get(ax_ + "unit")
+        lab = labs[ax_] or ""
+        if u_ and (not lab.endswith("[" + u_ + "]") or (n_ and lab != n_ + "[" + u_ + "]")):
+            fail("label:format:" + ax_, "{} label is {!r}; the unit {!r} (name {!r}) must follow the "
+                 "name in brackets".format(ax_, lab, u_, n_ or "<from the data>"), indep=True, impl=lab,
+                 expected=(n_ or "<name>") + "[" + u_ + "]", clause="axis labels = name[unit]")
+            return fails, False
     for k, v in M["labels"].items():
         if labs.get(k) != v:
             fail("label:" + k, "{} label is {!r}, should be {!r}".format(k, labs.get(k), v),
